@@ -55,3 +55,32 @@ Definition port := (Z * Z * bool)%type.
 Definition port_eqb (a b : port) : bool :=
   let '(i, o, d) := a in let '(j, p, e) := b in Z.eqb i j && Z.eqb o p && Bool.eqb d e.
 Definition out_port_of_node (idx : Z) : port := (idx, 0, false).   (* ToNode.out_port *)
+
+(* ---- which count a builder writes on the handle it returns ----
+   dfg.py: add_op/add/extend -> replace(node, _num_out_ports=op.num_out); call -> add_node(.., call_op.num_out);
+   load -> add_node(.., 1 value output); containers -> _update_node_outs(parent_node, count) when their
+   outputs are set.  An operation is described by the shape that determines its outputs. *)
+Inductive rowitem := RTy | RVar (i : nat) | RRow (i : nat).   (* a type, type variable i, row variable i *)
+Inductive targ := ATy | ASeq (len : nat).                     (* a type argument, a sequence of len types *)
+Inductive opshape :=
+| SSig (nin nout : Z)            (* op carrying a FunctionType: Custom, CallIndirect *)
+| SUnpack (k : Z)                (* UnpackTuple of a k-tuple *)
+| SPack (k : Z)                  (* MakeTuple / Tag of k values *)
+| SUnary                         (* Noop, LoadConst *)
+| SCall (body_out : list rowitem) (args : list targ) (inst_out : Z)
+                                 (* Call: output row of the polymorphic body, the type arguments, and the
+                                    number of outputs of the instantiation handed to `call` (ops.py has a
+                                    TODO instead of computing the instantiation) *)
+| SDfg (outs : Z)                (* DFG / CFG / Conditional whose outputs were set to `outs` wires *)
+| SLoop (just_out rest : Z).     (* TailLoop: Sum([just_in, just_out]) and rest *)
+
+Definition builder_count (s : opshape) : option Z :=
+  match s with
+  | SSig _ nout => Some nout             (* len(signature.output) *)
+  | SUnpack k => Some k                  (* len(self.types) *)
+  | SPack _ => Some 1
+  | SUnary => Some 1
+  | SCall _ _ inst_out => Some inst_out  (* Call.num_out = len(self.instantiation.output) *)
+  | SDfg outs => Some outs               (* _set_parent_output_count(len(outputs)) *)
+  | SLoop j r => Some (j + r)            (* len(variant_rows[1]) + len(outputs) - 1 *)
+  end.
